@@ -75,7 +75,8 @@ ASSUMPTIONS = [
     'np.linalg.norm of a non-zero plane normal is positive (the λᵢ > 0 hypothesis of inside_iff_rel)',
     'left-handed and singular cells are outside the quantifier of the property; the model still mirrors the code there',
 ]
-TRUSTED = ['numpy broadcasting / shape plumbing (exercised through container and shape variants, not modelled)',
+TRUSTED = ['the ast translator of harness/props/c01.py (restricted forms, refuses anything else)',
+           'numpy broadcasting / shape plumbing (exercised through container and shape variants, not modelled)',
            'the hand-written correspondence harness harness/props/c01.py and its tolerance rules']
 
 U = 2.0 ** -52
@@ -2377,6 +2378,7 @@ MANIFEST = {
             'state-machine correspondence on exact rational inputs (incl. chains of one-ulp..1e-4 changes on warm objects; exact on the dyadic grid, 1e3*2^-52*cond*scale elsewhere, '
             'points within that bound of a face exempt); numpy cos/sqrt/arccos/inv/norm assumed accurate; numpy shape plumbing '
             'exercised by container/shape variants, not modelled.',
-    'technique': 'Lean 4 theorems over a hand-written polymorphic model + differential state-machine correspondence + '
-                 'exact-rational clause oracle on the real code',
+    'technique': 'Lean 4 theorems over a hand-written polymorphic model + translator (class state/write protocol and the '
+                 'one-line formulas of Box.py regenerated as Lean and proved equal to the model on every run) + differential '
+                 'state-machine correspondence + exact-rational clause oracle on the real code',
 }
